@@ -83,7 +83,7 @@ def _obs_case(rng):
             elif w[0] == "onew" and b in lb: lo.add(o)
             elif w[0] == "odel": lo.discard(o)
             elif w[0] == "ocopy" and int(w[2][1:]) in lo: lo.add(o)
-            elif w[0] == "bcopy" and int(w[2][1:]) in lb: lb.add(b)
+            elif w[0] in ("bcopy", "bmove") and int(w[2][1:]) in lb: lb.add(b)
             continue
         if not lb or (r < 0.08 and len(lb) < NBS):
             free = [x for x in range(NBS) if x not in lb]
@@ -122,13 +122,13 @@ def _obs_case(rng):
         elif r < 0.97:
             free = [x for x in range(NBS) if x not in lb]
             if free:
-                d = rng.pick(free); c.append("bcopy b%d b%d" % (d, b)); lb.add(d)
+                d = rng.pick(free); c.append("%s b%d b%d" % (rng.pick(["bcopy", "bcopy", "bmove"]), d, b)); lb.add(d)
                 if rng.chance(0.5):
                     c.append("bdel b%d" % d); lb.discard(d)
                     if lo:
                         c.append("notify b%d" % b); c.append("poll o%d" % rng.pick(sorted(lo)))
         else:
-            c.append("bassign b%d b%d" % (b, rng.pick(sorted(lb))))
+            c.append("%s b%d b%d" % (rng.pick(["bassign", "bmassign"]), b, rng.pick(sorted(lb))))
     _teardown(rng, c, lb, lo)
     return c
 
